@@ -2,7 +2,7 @@
     Property theorems only; window functions REGENERATED from _running_window_mode.py, scatter
     loop modelled in Model/Driver.v (correspondence K3). *)
 From Coq Require Import ZArith QArith List Bool.
-From IV Require Import NP QL GenWindows Grid Driver Driver_proofs Driver_corollaries DriverCorr.
+From IV Require Import NP QL GenWindows Grid Driver Driver_proofs Driver_corollaries DriverCorr MonthsDriver_proofs.
 Import ListNotations.
 Open Scope Z_scope.
 
@@ -44,3 +44,19 @@ Example C08_window_uses_full_halfwidth :
   let out := fun o => match run_rw 5 1 days days days o base base with Some l => nth 9 l 0%Q | None => 0%Q end in
   Qeq_bool (out base) (out (bump 12)) = false /\ Qeq_bool (out base) (out (bump 13)) = true.
 Proof. vm_compute. split; reflexivity. Qed.
+
+(** the month mode of ISIMIP (running_window_mode = False; Model/Driver.v months_driver, correspondence K20) is local
+    in the same sense: for EVERY step pipeline W, the value of a time step depends only on the values the three series
+    have in ITS month — changing anything in another month leaves it unchanged *)
+Theorem C08_isimip_month_mode_local : forall (T V : Type) (mo mh mf : list Z) (obs hist fut obs' hist' fut' : list T)
+    (W : list T -> list T -> list T -> list V) (k : nat),
+  length fut = length mf -> length fut' = length mf -> (forall o h f, length (W o h f) = length f) ->
+  (forall m, In m mf -> 1 <= m <= 12) -> (k < length mf)%nat ->
+  let m := nth k mf 0 in
+  NP.select obs (map (Z.eqb m) mo) = NP.select obs' (map (Z.eqb m) mo) ->
+  NP.select hist (map (Z.eqb m) mh) = NP.select hist' (map (Z.eqb m) mh) ->
+  NP.select fut (map (Z.eqb m) mf) = NP.select fut' (map (Z.eqb m) mf) ->
+  forall out out', months_driver V mo mh mf obs hist fut W = Some out ->
+    months_driver V mo mh mf obs' hist' fut' W = Some out' -> nth k out None = nth k out' None.
+Proof. exact months_driver_local. Qed.
+Print Assumptions C08_isimip_month_mode_local.
